@@ -353,4 +353,13 @@ def write_evidence(prop, tier, seed, lemmas, results, violations, inconclusive, 
 
 
 if __name__ == "__main__":
-    sys.exit(main())
+    try:
+        rc = main()
+    except SystemExit:
+        raise
+    except BaseException as e:  # noqa: BLE001  a crash of the machinery is never a verdict: exit code 2 (inconclusive), not 1 (violation)
+        import traceback
+        traceback.print_exc()
+        print(f"HARNESS-ERROR {type(e).__name__}: {str(e)[:300]}")
+        rc = 2
+    sys.exit(rc)
